@@ -50,7 +50,7 @@ FAULT_TABLE = [
     ('I', '     ', ['ConfigError']), ('I', '\t\t\t\t\t\t', ['ConfigError']), ('I', 'x    ', ['ConfigError']), ('I', '  [1  ', ['ConfigError']),
     ('I', ' \n \n \n', ['ConfigError']), ('LGG', ['a', 'b', 'c', 'd', 'e'], ['ConfigError']), ('LGG', ['a', 'b', 'c'], ['ConfigError']),
     ('LGG', ['a', 'b', 'c', 'd', 'e', 'f'], ['ConfigError']),
-    ('FMS', '2K', ['UndefinedFunction']), ('FMS', '2kk', ['UndefinedFunction']), ('FMS', '3 k', ['UndefinedFunction', 'UndefinedVariable', 'UnableToParse']),
+    ('FMS', '2K', ['UndefinedFunction']), ('FMS', '2kk', ['UndefinedFunction']),
     ('LNA', ['a', 'b'], ['ConfigError']), ('SLNA', 'a, b', ['ConfigError']),       # graders without any answers, called without expect
     ('IB', '<1,2]', ['InvalidInput']), ('IB', '[1,2>', ['InvalidInput']), ('IB', '|1,2|', ['InvalidInput']), ('IB', '{1,2|', ['InvalidInput']),
     ('ML', 'v', ['InputTypeError']), ('ML', '[1,2]', ['InputTypeError']), ('ML', 'A', ['InputTypeError']), ('ML', 'A^2', ['InputTypeError']),
